@@ -496,10 +496,16 @@ class HistoryGen:
         self.emit(call, "CParse", expect="ok")
         self.parsed.append((out, raw, defined, shared))
 
-    def piecewise_parent(self):
+    def piecewise_parent(self, own_dict=False):
         """piecewise: child first, then a parent referring to it by name, both parsed against one caller dict"""
         rng = self.rng
-        ns, names = self.dict_slot()
+        if own_dict or rng.random() < 0.5:               # a dictionary of its own: a separate schema family
+            slot = self.fresh_slot("N")
+            self.emit({"api": "new_dict", "$out": slot}, "")
+            self.dicts.append((slot, {}))
+            ns, names = self.dicts[-1]
+        else:
+            ns, names = self.dict_slot()
         child_def = {}
         child = SchemaGen(rng).record("Inner", 1, child_def)
         out = self.fresh_slot("P")
@@ -507,8 +513,11 @@ class HistoryGen:
         self.parsed.append((out, child, child_def, True))
         names.update(child_def)
         pdef = dict(names)
+        # the FIRST reference to the separately parsed type: directly, as array items, as map values, in a union
+        first = rng.choice(["Inner", {"type": "array", "items": "Inner"}, {"type": "map", "values": "Inner"},
+                            {"type": "array", "items": {"type": "map", "values": "Inner"}}, ["null", "Inner"]])
         parent = {"type": "record", "name": rng.choice(["R", "Outer"]), "fields": [
-            {"name": "x", "type": "Inner"}, {"name": "y", "type": rng.choice(["int", {"type": "array", "items": "Inner"}])}]}
+            {"name": "x", "type": first}, {"name": "y", "type": rng.choice(["int", {"type": "array", "items": "Inner"}, "Inner"])}]}
         pdef[parent["name"]] = parent
         out2 = self.fresh_slot("P")
         self.emit({"api": "parse_schema", "schema": parent, "named_schemas": {"$slot": ns}, "$out": out2}, "CParse", expect="ok")
@@ -768,16 +777,18 @@ class HistoryGen:
 
     # --- piecewise-parsed schemas in use -----------------------------------------------------------------------
     def c_piecewise_use(self):
-        """a parent schema that refers to a type BY NAME because the type was parsed separately into a shared
-        named_schemas dict: canonical form, writers (self-contained header?), validate - after other calls of the
-        history handled schemas that define the same names"""
+        """parent schemas that refer to a type BY NAME because the type was parsed separately into a named_schemas dict:
+        canonical form, writers (self-contained header?), validate.  Several families in one history define the SAME full name
+        ('Inner') differently, each in its own dictionary."""
         rng = self.rng
-        if not self.piecewise or rng.random() < 0.2:
-            self.piecewise_parent()
-        slot, raw, defined = rng.choice(self.piecewise)
-        arg = {"$slot": slot}
-        for _ in range(rng.choice([1, 2])):
-            k = rng.choice(["canonical", "canonical", "writer", "json_writer", "schemaless_writer", "validate"])
+        # two families, each with its own dictionary and its own definition of 'Inner', used one after the other
+        self.piecewise_parent(own_dict=True)
+        self.piecewise_parent(own_dict=True)
+        picks = [self.piecewise[-2], self.piecewise[-1]] + ([rng.choice(self.piecewise)] if rng.random() < 0.4 else [])
+        pair = rng.choice(["canonical", "canonical", "writer"])
+        for n, (slot, raw, defined) in enumerate(picks):
+            arg = {"$slot": slot}
+            k = pair if n < 2 else rng.choice(["canonical", "writer", "json_writer", "schemaless_writer", "validate"])
             if k == "canonical":
                 self.emit({"api": "canonical", "schema": arg}, "CCanonical", expect="any")
             elif k == "validate":
